@@ -339,9 +339,14 @@ def gen_global_case(rng):
             xs = [[rand_rat(rng) for _ in range(len(m) * bs)] for m in maps]
         return "vops %d %d %s %s %s %s %s %s" % (bs, mode, vlib.frac_str(rand_rat(rng)), vlib.frac_str(rand_rat(rng)), D, ords,
                                                 " ".join(fmt_rats(v) for v in ys), " ".join(fmt_rats(v) for v in xs))
-    if k < 0.72:
-        return "gapply2 %s %s %s %s %s %s" % (vlib.frac_str(rand_rat(rng)), D, ords, " ".join(gen_mats(rng, maps)),
-                                              " ".join(fmt_rats(v) for v in type1(1)), " ".join(fmt_rats(v) for v in type1(1)))
+    if k < 0.58:
+        ys = type1(bs) if rng.random() < 0.6 else [[rand_rat(rng) for _ in range(len(m) * bs)] for m in maps]
+        return "valias %d %s %s %s %s %s" % (bs, vlib.frac_str(rand_rat(rng)), vlib.frac_str(rand_rat(rng)), D, ords,
+                                             " ".join(fmt_rats(v) for v in ys))
+    if k < 0.74:
+        return "gapply2 %d %d %s %s %s %s %s %s" % (rng.randrange(2), rng.randrange(2), vlib.frac_str(rand_rat(rng)), D, ords,
+                                                    " ".join(gen_mats(rng, maps)),
+                                                    " ".join(fmt_rats(v) for v in type1(1)), " ".join(fmt_rats(v) for v in type1(1)))
     if k < 0.86:
         return "gdiag %d %s %s %s" % (rng.randrange(2), D, ords, " ".join(gen_mats(rng, maps)))
     # unit filter on a global Dirichlet set (interface DOFs included with high probability)
@@ -454,6 +459,15 @@ CORPUS = [
     "csync1 nest 6 4 8 5 12 14 1 0 3 0 1 2 2 8 10 3 11 5 0 0 0 3 9 1 3 3 12 9 5 2 4 2 1 3 3 5 6 7 3 2 8 12 2 3 5 1 4 0 4 2 6 8 10 3 7 6 1 0 2 11 2 4 13 10 7 3 0 0 2 0 4 4 1 3 7 4 1 1 0 0 0 1 1 2 0 0 0 0 1 2 2 0 0 0 1 0 2 3 0 0 0 2 0 1 1 0 0 0 1 2 2 4 0 0 0 1 3 2 0 0 0 2 0 2 2 5 0 0 0 2 2 3 3 0 0 0 1 1 1 4 0 0 0 2 2 1 1 0 2 1 0 2 1 0 2 0 1 2 1 0 1 0 2 -9/1 -36/1 2 -7/1 -2/1 3 -9/1 -11/2 5/1 6 -8/1 7/1 -3/1 -16/7 -9/1 -5/1 3 -8/1 -4/1 6/7 0 0 0 9 11/4 4/1 -3/1 23/7 1/1 -5/1 8/1 7/1 -9/1 3 -11/4 0/1 5/2 4 21/2 -7/1 2/1 0/1 4 7/3 -5/2 1/2 19/3 1 0/1 9 9/1 -13/2 5/1 -17/2 -3/7 6/1 4/1 0/1 -3/1 3 -2/1 4/1 -31/5 4 -3/1 2/1 0/1 0/1 4 6/1 3/1 -9/1 23/2 1 -5/7 0 4 35/2 11/2 -8/1 -33/1 6 3/1 30/1 -6/1 36/5 -5/1 17/3 6 3/1 -4/1 -3/1 -5/1 -31/4 -5/1 0 6 0/1 -1/1 18/7 0/1 -1/1 0/1 4 -1/1 -4/1 -14/3 2/1 0 0 0 6 -8/1 3/1 -8/1 -7/1 0/1 1/4 4 0/1 0/1 -36/5 -6/1",
     "cdot p3 4 1 4 4 1 0 2 3 3 0 2 3 2 1 2 2 1 2 3 3 2 0 2 2 2 0 2 1 3 3 2 1 3 2 1 1 3 1 1 0 3 2 1 0 3 1 1 1 3 2 1 0 0 2 0 1 3 1 1 1 0 2 0 1 2 2 1 0 4 3/5 0/1 5/1 0/1 4 4/1 0/1 22/7 9/1 4 0/1 16/5 -5/1 -3/1 3 0/1 5/1 0/1 3 0/1 22/7 9/1 3 16/5 -5/1 -3/1 2 3/5 5/1 2 4/1 22/7 2 0/1 -5/1 2 3/5 5/1 2 4/1 22/7 2 0/1 -5/1 4 -9/1 16/7 -7/1 -3/1 4 0/1 18/5 0/1 0/1 4 5/1 13/5 27/8 -8/1 3 16/7 -7/1 -3/1 3 18/5 0/1 0/1 3 13/5 27/8 -8/1 2 -9/1 -7/1 2 0/1 0/1 2 5/1 27/8 2 -9/1 -7/1 2 0/1 0/1 2 5/1 27/8",
     "csync0 t4 5 4 7 7 7 10 1 0 2 2 3 4 2 6 3 1 2 0 2 2 6 0 0 2 3 5 3 8 9 4 1 0 2 5 4 4 0 2 6 5 2 3 6 5 5 1 0 3 4 0 4 3 4 2 0 2 1 5 3 0 2 6 3 0 6 1 3 3 5 1 1 7 4 1 1 0 0 1 2 0 4 1 0 0 2 2 3 0 2 1 0 0 2 1 0 0 3 1 0 0 2 2 0 0 4 4 2 0 1 0 2 0 1 0 3 1 1 0 1 0 0 2 1 1 0 1 1 0 0 1 1 0 1 0 0 4 0 1 0 0 2 2 1 0 3 1 0 0 2 0 1 0 4 1 0 0 1 3 0 1 1 0 0 1 3 0 4 4 1 2 0 1 0 0 1 1 2 0 1 0 0 0 1 2 0 2 0 2 0 2 1 2 0 2 3 2 0 4 2 1 0 0 1 1 0 1 2 2 0 0 2 0 1 0 0 1 0 0 2 0 2 0 3 1 0 0 1 0 0 4 1 0 2 3 4 0 1 2 3 4 3 0 2 1 4 1 2 0 3 4 3 2 1 0 1 5/1 4 0/1 8/7 8/1 8/1 4 2/1 -28/1 -27/8 0/1 2 6/1 -5/4 2 0/1 2/1 0 2 -31/2 3/1 3 3/1 39/1 2/1 1 1/1 4 7/4 0/1 4/1 3/1 4 2/1 29/7 7/5 -5/1 2 36/1 0/1 5 9/1 -9/1 35/4 8/1 3/2 0 4 -22/5 7/1 -5/1 -3/1 2 -5/1 0/1 3 2/1 -17/4 -14/1 6 3/1 0/1 1/1 9/1 -4/1 -12/7 3 0/1 7/1 -13/3 1 -4/7",
+    # operand aliasing: apply / apply_transposed (r, x, y, alpha) with r the same object as y (and not), y non-zero on the
+    # DOFs shared by 2 and 3 patches; aliased Global::Vector members for block sizes 1, 2, 3
+    "gapply2 0 0 -3/2 5 3 3 0 1 2 3 1 0 3 2 4 0 2 1 2 0 1 2 1 0 2 2 1 1 0 2 1 0 2 0 1 1 1 1 1 2 1 0 2 0 1 2 1 0 3 2 0 2/1 1 -1/1 2 0 -1/1 1 3/1 2 1 1/2 2 1/1 3 2 0 2/1 1 -1/1 2 0 -1/1 1 1/1 2 1 1/1 2 4/1 2 1 0 3/1 2 0 -1/1 1 1/1 3 1/1 -2/1 3/1 3 -2/1 1/1 1/2 2 4/1 1/1 3 5/1 7/1 1/1 3 7/1 5/1 2/1 2 -3/1 5/1",
+    "gapply2 0 1 -3/2 5 3 3 0 1 2 3 1 0 3 2 4 0 2 1 2 0 1 2 1 0 2 2 1 1 0 2 1 0 2 0 1 1 1 1 1 2 1 0 2 0 1 2 1 0 3 2 0 2/1 1 -1/1 2 0 -1/1 1 3/1 2 1 1/2 2 1/1 3 2 0 2/1 1 -1/1 2 0 -1/1 1 1/1 2 1 1/1 2 4/1 2 1 0 3/1 2 0 -1/1 1 1/1 3 1/1 -2/1 3/1 3 -2/1 1/1 1/2 2 4/1 1/1 3 5/1 7/1 1/1 3 7/1 5/1 2/1 2 -3/1 5/1",
+    "gapply2 1 0 -3/2 5 3 3 0 1 2 3 1 0 3 2 4 0 2 1 2 0 1 2 1 0 2 2 1 1 0 2 1 0 2 0 1 1 1 1 1 2 1 0 2 0 1 2 1 0 3 2 0 2/1 1 -1/1 2 0 -1/1 1 3/1 2 1 1/2 2 1/1 3 2 0 2/1 1 -1/1 2 0 -1/1 1 1/1 2 1 1/1 2 4/1 2 1 0 3/1 2 0 -1/1 1 1/1 3 1/1 -2/1 3/1 3 -2/1 1/1 1/2 2 4/1 1/1 3 5/1 7/1 1/1 3 7/1 5/1 2/1 2 -3/1 5/1",
+    "gapply2 1 1 -3/2 5 3 3 0 1 2 3 1 0 3 2 4 0 2 1 2 0 1 2 1 0 2 2 1 1 0 2 1 0 2 0 1 1 1 1 1 2 1 0 2 0 1 2 1 0 3 2 0 2/1 1 -1/1 2 0 -1/1 1 3/1 2 1 1/2 2 1/1 3 2 0 2/1 1 -1/1 2 0 -1/1 1 1/1 2 1 1/1 2 4/1 2 1 0 3/1 2 0 -1/1 1 1/1 3 1/1 -2/1 3/1 3 -2/1 1/1 1/2 2 4/1 1/1 3 5/1 7/1 1/1 3 7/1 5/1 2/1 2 -3/1 5/1",
+    "valias 1 1/2 -2/1 5 3 3 0 1 2 3 1 0 3 2 4 0 2 1 2 0 1 2 1 0 2 2 1 1 0 2 1 0 2 0 1 1 1 1 1 2 1 0 2 0 1 2 1 0 3 5/1 7/1 1/1 3 7/1 5/1 2/1 2 -3/1 5/1",
+    "valias 2 1/2 -2/1 5 3 3 0 1 2 3 1 0 3 2 4 0 2 1 2 0 1 2 1 0 2 2 1 1 0 2 1 0 2 0 1 1 1 1 1 2 1 0 2 0 1 2 1 0 6 5/1 6/1 7/1 8/1 1/1 2/1 6 7/1 8/1 5/1 6/1 2/1 3/1 4 -3/1 -2/1 5/1 6/1",
+    "valias 3 1/2 -2/1 5 3 3 0 1 2 3 1 0 3 2 4 0 2 1 2 0 1 2 1 0 2 2 1 1 0 2 1 0 2 0 1 1 1 1 1 2 1 0 2 0 1 2 1 0 9 5/1 6/1 7/1 7/1 8/1 9/1 1/1 2/1 3/1 9 7/1 8/1 9/1 5/1 6/1 7/1 2/1 3/1 4/1 6 -3/1 -2/1 -1/1 5/1 6/1 7/1",
 ]
 
 
@@ -664,7 +678,11 @@ def global_oracle(op, c, out):
     if op == "vops":
         mode, a, b = c.nat(), vlib.parse_frac(c.tok()), vlib.parse_frac(c.tok())
     if op == "gapply2":
+        alias, transp = c.nat(), c.nat()
         alpha = vlib.parse_frac(c.tok())
+    if op == "valias":
+        bs = c.nat()
+        a, b = vlib.parse_frac(c.tok()), vlib.parse_frac(c.tok())
     if op in ("gdiag", "gfilter"):
         flag = c.nat()
     G, maps, nbrs = c.decomp()
@@ -702,6 +720,29 @@ def global_oracle(op, c, out):
             raise ValueError("tag")
         got = [vlib.parse_frac(o.tok()) for _ in range(4)]
         return None if got == exp else "max_abs/min_abs/max/min = %s, undecomposed vector gives %s" % (got, exp)
+    if op == "valias":
+        for _ in range(P):
+            c.lst()
+        ys = [c.rats() for _ in range(P)]
+        loc = [[(b * (y + a * y)) ** 2 for y in ys[r]] for r in range(P)]
+        toks = out.split()
+        if "D" not in toks:
+            raise ValueError("no dot")
+        k = len(toks) - 2
+        res = read_vecs_out(" ".join(toks[:k]), "V", sizes)
+        for r in range(P):
+            for i, g in enumerate(maps[r]):
+                for kk in range(bs):
+                    cc = [loc[q][maps[q].index(g) * bs + kk] for q in sharers[g]]
+                    if res[r][i * bs + kk] != sum(cc) / len(cc):
+                        return "aliased Global::Vector ops + sync_1: patch %d dof %d = %s, expected %s" % (
+                            r, i, res[r][i * bs + kk], sum(cc) / len(cc))
+        L = glob(loc)
+        if L is not None:
+            exp = sum(v * v for v in L.values())
+            if vlib.parse_frac(toks[-1]) != exp:
+                return "Gate::dot(x, x) with both arguments the same object = %s, undecomposed vector gives %s" % (toks[-1], exp)
+        return None
     if op == "vops":
         for _ in range(P):
             c.lst()
@@ -741,7 +782,10 @@ def global_oracle(op, c, out):
             for g in range(G):
                 res_exp[g] = Y.get((g, 0), 0)
             for (gi, gj), av in A.items():
-                res_exp[gi] += alpha * av * X[(gj, 0)]
+                if transp:
+                    res_exp[gj] += alpha * av * X[(gi, 0)]
+                else:
+                    res_exp[gi] += alpha * av * X[(gj, 0)]
         else:
             for g in range(G):
                 res_exp[g] = Fraction(0)
@@ -785,7 +829,7 @@ def oracle(case, out):
     try:
         if op in ("csync0", "csync1", "cdot", "cmuxjoin", "cmuxsplit"):
             return composite_oracle(op, c, out)
-        if op in ("gred", "norm", "vmax", "vops", "gapply2", "gdiag", "gfilter", "spljoin", "splsplit"):
+        if op in ("gred", "norm", "vmax", "vops", "valias", "gapply2", "gdiag", "gfilter", "spljoin", "splsplit"):
             return global_oracle(op, c, out)
         if op in ("mgather", "mscatter"):
             bs, size, mir = c.nat(), c.nat(), c.lst()
@@ -902,6 +946,10 @@ def _shape(case):
     bs = 1 if op in ("gapply", "gapply2", "gdiag", "gfilter", "spljoin", "splsplit") else c.nat()
     if op == "vops":
         c.nat(), c.tok(), c.tok()
+    if op == "valias":
+        c.tok(), c.tok()
+    if op == "gapply2":
+        c.nat(), c.nat()
     if op == "gapply2":
         bs = 1
         c.p -= 0
@@ -1077,7 +1125,7 @@ def parse_mpi_out(out):
     return {t[i]: t[i + 1] for i in range(1, len(t) - 1, 2)}
 
 
-TOL = {"t_gate_sum_freq": 1e-12, "t_gate_norm2": 1e-12, "t_gate_norm2_ref": 1e-12, "t_b_nrm": 1e-14, "t_rhs_nrm": 1e-12, "t_def_init": 1e-12, "t_Axpy_w2": 1e-12, "t_sol_nrm": 1e-7, "t_sol_w1": 1e-7,
+TOL = {"t_gate_sum_freq": 1e-12, "t_gate_norm2": 1e-12, "t_gate_norm2_ref": 1e-12, "t_b_nrm": 1e-14, "t_rhs_nrm": 1e-12, "t_def_init": 1e-12, "t_valias_dot": 1e-12, "t_Axpy_w2": 1e-12, "t_Axpy_alias_w2": 1e-12, "t_ATxpy_w2": 1e-12, "t_ATxpy_alias_w2": 1e-12, "t_sol_nrm": 1e-7, "t_sol_w1": 1e-7,
        "t_err_h0": 1e-6, "t_err_h1": 1e-6}
 
 
@@ -1123,6 +1171,11 @@ def make_mpi_oracle(results):
             elif k == "s_status":
                 if a != "ok":
                     return "solver status " + a
+        if "t_Axpy_alias_w2" in o:
+            # r aliasing y must give what distinct objects give (same run, same partition: bit-identical)
+            for ka, kb in (("t_Axpy_alias_w2", "t_Axpy_w2"), ("t_ATxpy_alias_w2", "t_ATxpy_w2")):
+                if float.fromhex(o[ka]) != float.fromhex(o[kb]):
+                    return "%s = %s but %s = %s on %d ranks (r aliasing y changes the result)" % (ka, o[ka], kb, o[kb], n)
         if "t_gate_norm2" in o:
             fa, fb = float.fromhex(o["t_gate_norm2"]), float.fromhex(o["t_gate_norm2_ref"])
             if not abs(fa - fb) <= 1e-12 * abs(fb):
